@@ -116,7 +116,12 @@ type TCPTarget struct {
 }
 
 func NewTCPTarget(ip string) (*TCPTarget, error) {
-	l, err := net.ListenTCP("tcp", &net.TCPAddr{IP: net.ParseIP(ip)})
+	return NewTCPTargetAddr(&net.TCPAddr{IP: net.ParseIP(ip)})
+}
+
+// NewTCPTargetAddr listens on a specific address (zone and port included).
+func NewTCPTargetAddr(a *net.TCPAddr) (*TCPTarget, error) {
+	l, err := net.ListenTCP("tcp", a)
 	if err != nil {
 		return nil, err
 	}
